@@ -216,8 +216,6 @@ def far_enough_filter(cls, consider, threshold):
                f"candidates.keys()[k]._level + 1, {threshold.replace(rec, krec)})), pat={krec}.individuals[j])")
     refine(SF + cls + ".__call__", SF + "DemeLevelCandidatesFilter.__call__",
            locals={"child_seeds": "list[ref:Individual]"},
-           requires=[cl("populated_demes", "forall(lambda l, i: imp(0 <= l < len(tree._levels) and 0 <= i < len(tree._levels[l]), "
-                        "len(cur_pop(tree._levels[l][i])) > 0), pat=tree._levels[l][i])")],
            modifies=IND_FRAME,
            loops={0: dict(index="q", modifies=IND_FRAME, invariant=KEYS_LOOP + [
                       cl("inv_far", f"forall(lambda k: imp(0 <= k < q, {all_far}), pat=candidates.keys()[k])", tags="C09")]),
@@ -279,8 +277,7 @@ def gen_inv(acc, extra=(), skip=()):
     return [cl(c.label, c.text.replace("{acc}", acc), " ".join(sorted(c.tags))) for c in GEN_INV if c.label not in skip] + list(extra)
 
 
-POPULATED = [cl("populated_demes", "forall(lambda l, i: imp(0 <= l < len(tree._levels) and 0 <= i < len(tree._levels[l]), "
-                "len(cur_pop(tree._levels[l][i])) > 0 and tree._levels[l][i]._level == l and lidx(tree._levels[l][i]) == i), pat=tree._levels[l][i])")]
+POPULATED = []        # "active demes have a non-empty current population" is part of the tree invariant (S_deme), no longer an assumption
 INNER = [cl("inv_level", "0 <= a and a < len(tree._levels) - 1 and level == tree._levels[a]")]
 refine(SG + "NBC_Generator.__call__", SG + "SproutCandidatesGenerator.__call__",
        locals={"candidates": "dict[ref:AbstractDeme,ref:DemeCandidates]"},
